@@ -906,6 +906,14 @@ BENIGN = [
       "            if not lower < upper:\n                raise ValueError(\"The upper bound of the range must be \" +\n"
       "                                 \"larger than the lower bound.\")\n"
       "            dist = uniform(loc=lower, scale=upper - lower)\n", ALL),
+    M('dictionary-asarray-first', PR,
+      "        return self.physical_to_dictionary(self.unit_to_physical(points))",
+      "        points = np.asarray(points)\n        return self.physical_to_dictionary(self.unit_to_physical(points))", ALL),
+    M('update-closes-in-finally', S,
+      "        fstream.close()\n        os.replace(filepath_tmp, filepath)\n\n    def write_shell_update",
+      "        try:\n            pass\n        finally:\n            fstream.close()\n        os.replace(filepath_tmp, filepath)\n\n    def write_shell_update", ALL),
+    M('periodic-presence-by-len', N, "        if periodic is not None:\n            bound.shift = PhaseShift.compute(",
+      "        if periodic is not None and len(periodic) >= 0:\n            bound.shift = PhaseShift.compute(", ALL),
     M('job-copy-renamed', N,
       "        bound = copy.deepcopy(self)\n        bound.reset(rng=rng)\n"
       "        bound.sample(n_points=n_points, return_points=False)\n        return bound\n",
